@@ -1232,7 +1232,8 @@ http_set_header(nng_http *conn, const char *key, const char *val)
 				nni_strfree(h->value);
 				h->value = NULL;
 			}
-			h->value = news;
+			h->value        = news;
+			h->static_value = false; // ours to free from now on
 			return (NNG_OK);
 		}
 	}
@@ -1271,7 +1272,8 @@ http_add_header(nng_http *conn, const char *key, const char *val)
 			if (!h->static_value) {
 				nni_strfree(h->value);
 			}
-			h->value = news;
+			h->value        = news;
+			h->static_value = false; // ours to free from now on
 			return (NNG_OK);
 		}
 	}
